@@ -250,6 +250,29 @@ Definition step (O : orc) (i : instr) (s : state) : result :=
 Fixpoint run (O : orc) (c : list instr) (s : state) : result :=
   match c with [] => Norm s | i :: c' => bind (step O i s) (run O c') end.
 
+(* ForInStatNode: iternext, target assignment, body; the iterator temp is released at loop end and on break *)
+Fixpoint loop_on (O : orc) (it d x : nat) (body : state -> result) (n : nat) (s : state) {struct n} : result :=
+  match n with
+  | 0 => Fuel
+  | S n' =>
+      match step O (INext d it) s with
+      | Norm s1 =>
+          if flag s1 then
+            match step O (ISetLoc x (RTmp d)) s1 with
+            | Norm s2 =>
+                match body s2 with
+                | Norm s3 => loop_on O it d x body n' s3
+                | Cnt s3 => loop_on O it d x body n' s3
+                | Brk s3 => step O (IDecref it) s3
+                | r => r
+                end
+            | r => r
+            end
+          else step O (IDecref it) s1
+      | r => r
+      end
+  end.
+
 Fixpoint exec (O : orc) (fuel : nat) (c : code) (s : state) {struct c} : result :=
   match c with
   | CSkip => Norm s
@@ -259,28 +282,7 @@ Fixpoint exec (O : orc) (fuel : nat) (c : code) (s : state) {struct c} : result 
   | CBreak => Brk s
   | CContinue => Cnt s
   | CReturn => Ret s
-  | CLoop it d x body =>
-      (fix loop (n : nat) (s : state) {struct n} : result :=
-         match n with
-         | 0 => Fuel
-         | S n' =>
-             match step O (INext d it) s with
-             | Norm s1 =>
-                 if flag s1 then
-                   match step O (ISetLoc x (RTmp d)) s1 with
-                   | Norm s2 =>
-                       match exec O fuel body s2 with
-                       | Norm s3 => loop n' s3
-                       | Cnt s3 => loop n' s3
-                       | Brk s3 => step O (IDecref it) s3
-                       | r => r
-                       end
-                   | r => r
-                   end
-                 else step O (IDecref it) s1
-             | r => r
-             end
-         end) fuel s
+  | CLoop it d x body => loop_on O it d x (exec O fuel body) fuel s
   end.
 
 Fixpoint code_of (c : list instr) : code :=
@@ -360,6 +362,15 @@ Inductive stmt :=
 | SIf (c : expr) (s1 s2 : stmt)
 | SFor (x : nat) (e : expr) (body : stmt)
 | SBreak | SContinue.
+
+(* break / continue only inside loops (anything else is a compile-time error) *)
+Fixpoint jumps_ok (inloop : bool) (s : stmt) : bool :=
+  match s with
+  | SSeq s1 s2 | SIf _ s1 s2 => jumps_ok inloop s1 && jumps_ok inloop s2
+  | SFor _ _ body => jumps_ok true body
+  | SBreak | SContinue => inloop
+  | _ => true
+  end.
 
 (* ---------- temp allocator (FunctionState.allocate_temp / release_temp, object temps only) ---------- *)
 Record astate := mkA { anext : nat; afree : list nat }.   (* afree: most recently released first *)
